@@ -256,9 +256,10 @@ class VariationalWassersteinDistance(darsia.EMD):
 
         # ! ---- Constraint for the pressure correpsonding to Lagrange multiplier ----
 
+        # NOTE: The grid (and all flat vectors) use column-major ordering of the cells.
         center_cell = np.array(self.grid.shape) // 2
         self.constrained_cell_flat_index = np.ravel_multi_index(
-            center_cell, self.grid.shape
+            center_cell, self.grid.shape, order="F"
         )
         """int: flat index of the cell where the pressure is constrained to zero"""
 
